@@ -410,7 +410,7 @@ impl Gen {
         let kind = self.weights[rng.weighted(&w)].0;
         let s = self.slot(rng);
         let sv = &view.slots[s];
-        let val = rng.below(1 << 20) as i64;
+        let val = if rng.below(30) == 0 { crate::elem::NAN_VAL as i64 } else { rng.below(1 << 20) as i64 };
         match kind {
             Kd::Insert | Kd::TryInsert => Op::new(kind).s(s).a(self.key(rng, sv, 35) as i64).b(val),
             Kd::Get | Kd::GetMut | Kd::GetView | Kd::ContainsKey | Kd::GetKeyValue | Kd::GetKeyValueMut => Op::new(kind).s(s).a(self.key(rng, sv, 65) as i64).b(val),
@@ -469,7 +469,11 @@ impl Gen {
                 Op::new(kind).s(s).a(which).v(self.iter_plan(rng, sv.len, self.allow_forget))
             }
             Kd::CloneTo | Kd::CloneFrom | Kd::EqSlots | Kd::SetPred | Kd::SetOp | Kd::SetOpAssign => {
-                let t = (s + 1 + rng.below(self.n_slots as u64 - 1) as usize) % self.n_slots;
+                let mut t = (s + 1 + rng.below(self.n_slots as u64 - 1) as usize) % self.n_slots;
+                if kind == Kd::EqSlots && rng.below(5) == 0 {
+                    // a collection compared with itself
+                    t = s;
+                }
                 Op::new(kind).s(s).t(t).a(rng.below(16) as i64).v(self.iter_plan(rng, sv.len, false))
             }
             Kd::Entry => {
